@@ -294,4 +294,11 @@ PROPS['C15']['explanation'] += (' DISPLAY LISTS EXACTLY THE LIVE ROUTES (Proofs/
     '"literal siblings begin with different bytes", depends on it) and Display renders each node separately; a repair would have to change what the tree prints for every such node. The check reports every other '
     'difference between printed and stored label paths through Display/Tree/Routes as before.')
 
+PROPS['C07']['explanation'] += (' C07_duplicate_carets_in_range (closed, every input): the only slicing in the error renderers - the two replace_range calls that draw the carets of a DuplicateParameter error on a line of '
+    'template.len() ASCII spaces - is in range and in order for every such error the parser returns.')
+PROPS['C17']['explanation'] = PROPS['C17']['explanation'].replace('Partial, named: that the method -> handler table equals end-1..end-10 of the distribution specification (oracle spec_handler on every generated method x URL; ',
+    'THE TABLE AGAINST THE SPECIFICATION (Proofs/OciTableP.v, closed computations over the table regenerated every run): C17_table_within_the_specification - every route the example registers is the template of a specified '
+    '(method, URL shape) of end-1..end-10 with the specified handler; C17_specification_within_the_table_except_end5 - every specified (method, shape) has its route and handler in the table except end-5; '
+    'C17_one_route_per_method_and_template. Partial, named: that the template written for each URL shape (shape_template) reads URLs as the specification\'s URL decomposition does (oracle: spec_handler over readings on every generated method x URL; ')
+
 NOT_APPLICABLE = {}
